@@ -3,6 +3,8 @@ import TxdbusModel.Proofs.Net.Link
 import TxdbusModel.Proofs.Net.LinkTxdbus
 import TxdbusModel.Proofs.Net.Progress
 import TxdbusModel.Proofs.Net.Agree
+import TxdbusModel.Proofs.Net.Introspected
+import TxdbusModel.Proofs.Net.BytesSim
 import TxdbusModel.Net.OldBus
 /-!
 # C11 - a call through a proxy reaches the remote method and returns what it returned
@@ -204,10 +206,11 @@ theorem agreeing_proxy_accepted (w : World V) (px : Proxy) (o : ExpObj) (kw : Op
     (hname : i.name ≠ "")
     (hnb : NotBuiltin i.name member)
     (himpl : o.resolveImpl i.name member = some f) :
-    ∃ r0 : CallRec V, proxyResolve (.viaProxy px kw member args) = .ok r0 ∧
-      r0.dest = px.dest ∧ r0.args = args ∧ r0.retSig = some m.sigOut ∧
-      check w r0.dest r0.path r0.iface r0.member r0.sig = .run i m f :=
-  ⟨_, proxyResolve_ok hl hn, rfl, rfl, rfl, agreeing_proxy_check w hobj hag hl hname hnb himpl⟩
+    ∃ (r0 : CallRec V) (d : Iface), proxyResolve (.viaProxy px kw member args) = .ok r0 ∧
+      r0.dest = px.dest ∧ r0.args = args ∧ r0.retSig = some m.sigOut ∧ d.name = i.name ∧
+      check w r0.dest r0.path r0.iface r0.member r0.sig = .run d m f := by
+  obtain ⟨d, hdn, hck⟩ := agreeing_proxy_check w hobj hag hl hname hnb himpl
+  exact ⟨_, d, proxyResolve_ok hl hn, rfl, rfl, rfl, hdn, hck⟩
 
 /-- Every issued call was made by a `call` step of the schedule (the logs are not free-floating). -/
 theorem issued_from_call_steps (w : World V) (n : Nat) (first : Nat → Nat) (steps : List (Step V))
@@ -246,13 +249,13 @@ spells out as the returned value or the mirrored RemoteError - provided no `expi
 call's deadline pass first (then the completion is `TimeOut`, exactly once, and the late reply is ignored: C08's
 first-wins rule, `Completed.outcome`).  Not satisfiable by a model whose dispatch
 refuses the call: the invocation list is non-empty. -/
-theorem C11_call_through_agreeing_proxy (w : World V) (n : Nat) (first : Nat → Nat) (steps : List (Step V))
+theorem C11_call_selected_interface_agrees (w : World V) (n : Nat) (first : Nat → Nat) (steps : List (Step V))
     (hq : (run w (Net.init n first) steps).Quiescent)
     (a : Nat) (ha : a < n) (px : Proxy) (o : ExpObj) (kw : Option String) (member : String) (args : List V)
     (i : Iface) (m : MethodDecl) (f : Func)
     (hpd : px.dest < n)
     (hobj : lookupObj px.path (w.exports px.dest) = some o)
-    (hag : px.AgreesWith o)
+    (hag : i.AgreesIn o)
     (hl : proxyLookup kw member px.ifaces = some (i, m))
     (hn : args.length = m.nargs)
     (hname : i.name ≠ "")
@@ -281,9 +284,10 @@ theorem C11_call_through_agreeing_proxy (w : World V) (n : Nat) (first : Nat →
   have hsig : r.sig = m.sigIn := by rw [hr0]
   have hargs : r.args = args := by rw [hr0]
   have hret : r.retSig = some m.sigOut := by rw [hr0]
-  have hck : check w r.dest r.path r.iface r.member r.sig = .run i m f := by
+  obtain ⟨d, hdn, hck0⟩ := agreeing_iface_check w hobj hag (proxyLookup_spec hl).2 hname hnb himpl
+  have hck : check w r.dest r.path r.iface r.member r.sig = .run d m f := by
     rw [hdest, hpath, hif, hmem, hsig]
-    exact agreeing_proxy_check w hobj hag hl hname hnb himpl
+    exact hck0
   obtain ⟨oc, ans, hc⟩ := C11_end_to_end w n first steps hq a ha r hr (by rw [hdest]; exact hpd)
   have hfit := hc.fits
   simp only [AnswerFits, hck] at hfit
@@ -304,7 +308,7 @@ theorem C11_call_through_agreeing_proxy (w : World V) (n : Nat) (first : Nat →
   rw [hout, hans, hret] at honce
   rw [hans] at hansw
   rw [hdest] at hinv hansw
-  rw [hpath, hmem, hargs] at hinv
+  rw [hpath, hmem, hargs, hdn] at hinv
   refine ⟨res, hinv, hansw, honce, ?_⟩
   have hin : (some a, r.serial, Answer.result m.sigOut m.nret res) ∈
       ((run w (Net.init n first) steps).cl px.dest).answers := by
@@ -313,6 +317,149 @@ theorem C11_call_through_agreeing_proxy (w : World V) (n : Nat) (first : Nat →
       rw [hansw]; exact List.mem_singleton.mpr rfl
     exact (List.mem_filter.mp this).1
   exact result_from_step w n first steps px.dest _ _ _ _ res hin
+
+/-- The headline for a proxy ALL of whose interfaces agree with the exported object (an explicit proxy declared like
+the exporter): `C11_call_selected_interface_agrees` with the agreement of the selected interface taken from
+`Proxy.AgreesWith`. -/
+theorem C11_call_through_agreeing_proxy (w : World V) (n : Nat) (first : Nat → Nat) (steps : List (Step V))
+    (hq : (run w (Net.init n first) steps).Quiescent)
+    (a : Nat) (ha : a < n) (px : Proxy) (o : ExpObj) (kw : Option String) (member : String) (args : List V)
+    (i : Iface) (m : MethodDecl) (f : Func)
+    (hpd : px.dest < n)
+    (hobj : lookupObj px.path (w.exports px.dest) = some o)
+    (hag : px.AgreesWith o)
+    (hl : proxyLookup kw member px.ifaces = some (i, m))
+    (hn : args.length = m.nargs)
+    (hname : i.name ≠ "")
+    (hnb : NotBuiltin i.name member)
+    (himpl : o.resolveImpl i.name member = some f)
+    (r : CallRec V) (hr : r ∈ ((run w (Net.init n first) steps).cl a).issued)
+    (hfrom : ∃ r0, proxyResolve (.viaProxy px kw member args) = .ok r0 ∧ r = { r0 with serial := r.serial })
+    (hno : Step.expire a r.serial ∉ steps) :
+    ∃ res,
+      ((run w (Net.init n first) steps).cl px.dest).invocations.filter (invKey a r.serial) =
+        [{ sender := some a, serial := r.serial, path := px.path, iface := i.name, member := member,
+           args := args, impl := f.id }] ∧
+      ((run w (Net.init n first) steps).cl px.dest).answers.filter (ansKey a r.serial) =
+        [(some a, r.serial, .result m.sigOut m.nret res)] ∧
+      ((run w (Net.init n first) steps).cl a).completions.filter (complKey r.serial) =
+        [(r.serial, outcomeOf (some m.sigOut) (replyOf w (.result m.sigOut m.nret res)))] ∧
+      (Step.toClient px.dest (.now res) ∈ steps ∨ ∃ tok, Step.resolve px.dest tok res ∈ steps) :=
+  C11_call_selected_interface_agrees w n first steps hq a ha px o kw member args i m f hpd hobj
+    (hag i (proxyLookup_spec hl).1) hl hn hname hnb himpl r hr hfrom hno
+
+/-- **C11, "…or discovered by introspection".**  The headline WITHOUT an agreement hypothesis, for a proxy built
+by introspection.  `introspectedProxy` is `getRemoteObject(busName, path)` without `interfaces`: C15's code models
+of the exporter's `generateIntrospectionXML` and of the caller's `getInterfacesFromXML` (on any heap of interface
+objects and any `knownInterfaces` cache `known`), translated into this model's interface type.  Hypotheses, those of
+C15 `handler_gen_fresh`: the exported object's interfaces `cs` were declared through the `DBusInterface` API
+(`Declared`); their names and the three standard names are pairwise distinct; replacement is requested or none of
+these names is in the caller's cache (the stale-cache case is excluded: there the cached definition is used as it
+is, whatever it says).  The link between the two models of the exporter: this model's exported object at that path
+lists the same declared interfaces (`ho`).  Then the proxy exists, and every call through it that selects a
+non-standard interface (`i.name ∉ stdNames`; the standard three are answered by the handler itself) with the right
+number of arguments and a bound function satisfies the conclusion of the headline theorem. -/
+theorem C11_call_through_introspected_proxy (w : World V) (n : Nat) (first : Nat → Nat) (steps : List (Step V))
+    (hq : (run w (Net.init n first) steps).Quiescent)
+    {path : Intro.Str} {exported : List (Intro.Str × List Intro.Cached)} {cs : List Intro.Cached}
+    (hobj15 : Intro.exportedGet? exported path = some cs) (hdecl : Intro.Declared cs)
+    (hnames : ((Intro.decl cs).map (·.name)).Nodup)
+    (heap : List Intro.Interface) (known : List (Intro.Str × Nat)) (replace : Bool)
+    (hfresh : replace = true ∨ ∀ d ∈ Intro.decl cs, Intro.kget? known d.name = none)
+    (dest : Nat) (hpd : dest < n) (o : ExpObj)
+    (hobj : lookupObj (String.ofList path) (w.exports dest) = some o)
+    (ho : o.ifaces = (cs.map (·.iface)).map ifaceOfIntro) :
+    ∃ px, introspectedProxy dest path exported heap known replace = some px ∧
+      ∀ (a : Nat) (_ : a < n) (kw : Option String) (member : String) (args : List V) (i : Iface) (m : MethodDecl)
+        (f : Func),
+        proxyLookup kw member px.ifaces = some (i, m) → i.name ∉ stdNames → i.name ≠ "" →
+        args.length = m.nargs → o.resolveImpl i.name member = some f →
+        ∀ (r : CallRec V), r ∈ ((run w (Net.init n first) steps).cl a).issued →
+          (∃ r0, proxyResolve (.viaProxy px kw member args) = .ok r0 ∧ r = { r0 with serial := r.serial }) →
+          Step.expire a r.serial ∉ steps →
+          ∃ res,
+            ((run w (Net.init n first) steps).cl dest).invocations.filter (invKey a r.serial) =
+              [{ sender := some a, serial := r.serial, path := String.ofList path, iface := i.name,
+                 member := member, args := args, impl := f.id }] ∧
+            ((run w (Net.init n first) steps).cl dest).answers.filter (ansKey a r.serial) =
+              [(some a, r.serial, .result m.sigOut m.nret res)] ∧
+            ((run w (Net.init n first) steps).cl a).completions.filter (complKey r.serial) =
+              [(r.serial, outcomeOf (some m.sigOut) (replyOf w (.result m.sigOut m.nret res)))] ∧
+            (Step.toClient dest (.now res) ∈ steps ∨ ∃ tok, Step.resolve dest tok res ∈ steps) := by
+  obtain ⟨px, hpx, hd, hp, hag⟩ :=
+    introspected_interfaces_agree hobj15 hdecl hnames heap known replace hfresh o ho dest
+  refine ⟨px, hpx, ?_⟩
+  intro a ha kw member args i m f hl hstd hname hn himpl r hr hfrom hno
+  have hagi : i.AgreesIn o := by
+    rcases hag i (proxyLookup_spec hl).1 with h | h
+    · exact h
+    · exact absurd h hstd
+  have hobj' : lookupObj px.path (w.exports px.dest) = some o := by rw [hd, hp]; exact hobj
+  have := C11_call_selected_interface_agrees w n first steps hq a ha px o kw member args i m f
+    (by rw [hd]; exact hpd) hobj' hagi hl hn hname (notBuiltin_of_not_std hstd member) himpl r hr hfrom hno
+  rw [hd, hp] at this
+  exact this
+
+/-! ## 3e. bytes: any delivery order -/
+
+/-- **Simulation of the byte-level network** (Net/Bytes.lean) **by the message-level one.**  The byte-level network
+has, per client, a byte queue in each direction and, per receiver, C04's CODE MODEL of `dataReceived`
+(`Txdbus.Proto.step`); a read step hands the receiver ANY prefix of what is queued as one read.  For every codec
+satisfying `WireCodec.Laws` on a domain `Ok` (frames well-formed in C04's sense = C03 `marshal_wellformed`; parsing
+returns the message = C03 `parse_marshal`), every authenticator, world, number of clients and every byte-level run all
+of whose serialised messages are in `Ok`: there is a message-level schedule whose final state abstracts the final
+byte-level state (`Sim`: same clients up to the queues, and on every link receiver-buffer ++ wire = serialisation of
+the message queue).  One read is matched by the `toBus` / `toClient` steps for exactly the messages it completes. -/
+theorem bytes_run_simulated {α : Type} (C : WireCodec V) (Ok : Msg V → Prop) (hC : C.Laws Ok)
+    (A : Txdbus.Proto.Auth α) (a0 : α) (w : World V) (n : Nat) (first : Nat → Nat) (bsteps : List (BStep V))
+    (hok : ∀ m, m ∈ (brun C A w (BNet.init n first a0) bsteps).sent → Ok m) :
+    ∃ msteps, Sim C (brun C A w (BNet.init n first a0) bsteps) (run w (Net.init n first) msteps) noPre noPre :=
+  brun_simulated hC A w bsteps (sim_init C n first a0) hok
+
+/-- **C11, "for any order in which the transports deliver their bytes"** (PARTIAL: the codec enters through the
+stated laws `WireCodec.Laws`, not through C03's concrete model; see below).  For every byte-level run (any
+interleaving of calls, reads of any sizes on any link, Deferred firings, deadlines) that ends with nothing on any
+wire, nothing buffered by any receiver and no unfired Deferred: a message-level schedule `msteps` exists whose final
+state has the same client logs, is quiescent, and therefore (`C11_end_to_end`) has every call issued to an attached
+client `Completed`: exactly one completion, exactly one answer, the invocation exactly once iff accepted.
+
+Missing for the unqualified name: (1) the instance of `WireCodec.Laws` for txdbus's codec - C03 proves
+`marshal_wellformed` and `parse_marshal` for its concrete message model with concrete bodies (hypotheses on the values:
+C01's `RepFields`, fuel, `SigNoNul`, size limits), which this model keeps abstract; the bridge "C03's well-formedness
+implies C04's `Spec.WellFormed`" is not a named theorem of either property; (2) the handshake before binary mode (C04
+`handoff`, C06/C07): `BNet.init` starts after it. -/
+theorem C11_bytes_any_delivery_order_partial {α : Type} (C : WireCodec V) (Ok : Msg V → Prop) (hC : C.Laws Ok)
+    (A : Txdbus.Proto.Auth α) (a0 : α) (w : World V) (n : Nat) (first : Nat → Nat) (bsteps : List (BStep V))
+    (hok : ∀ m, m ∈ (brun C A w (BNet.init n first a0) bsteps).sent → Ok m)
+    (hq : (brun C A w (BNet.init n first a0) bsteps).Quiescent) :
+    ∃ msteps,
+      (run w (Net.init n first) msteps).Quiescent ∧
+      (∀ c, ((brun C A w (BNet.init n first a0) bsteps).cl c).issued = ((run w (Net.init n first) msteps).cl c).issued ∧
+            ((brun C A w (BNet.init n first a0) bsteps).cl c).completions =
+              ((run w (Net.init n first) msteps).cl c).completions ∧
+            ((brun C A w (BNet.init n first a0) bsteps).cl c).invocations =
+              ((run w (Net.init n first) msteps).cl c).invocations ∧
+            ((brun C A w (BNet.init n first a0) bsteps).cl c).answers =
+              ((run w (Net.init n first) msteps).cl c).answers) ∧
+      ∀ a, a < n → ∀ r, r ∈ ((brun C A w (BNet.init n first a0) bsteps).cl a).issued → r.dest < n →
+        ∃ o ans, Completed w (run w (Net.init n first) msteps) a r o ans := by
+  obtain ⟨msteps, hs⟩ := bytes_run_simulated C Ok hC A a0 w n first bsteps hok
+  have hqm := hs.quiescent hC hok hq
+  have hlogs : ∀ c, ((brun C A w (BNet.init n first a0) bsteps).cl c).issued =
+      ((run w (Net.init n first) msteps).cl c).issued ∧
+      ((brun C A w (BNet.init n first a0) bsteps).cl c).completions =
+        ((run w (Net.init n first) msteps).cl c).completions ∧
+      ((brun C A w (BNet.init n first a0) bsteps).cl c).invocations =
+        ((run w (Net.init n first) msteps).cl c).invocations ∧
+      ((brun C A w (BNet.init n first a0) bsteps).cl c).answers =
+        ((run w (Net.init n first) msteps).cl c).answers := by
+    intro c
+    rw [hs.cl c]
+    exact ⟨rfl, rfl, rfl, rfl⟩
+  refine ⟨msteps, hqm, hlogs, ?_⟩
+  intro a ha r hr hd
+  rw [(hlogs a).1] at hr
+  exact C11_end_to_end w n first msteps hqm a ha r hr hd
 
 /-! ## 4. what the completion is -/
 
@@ -434,7 +581,25 @@ example : lookupObj exProxy.path (exWorld.exports exProxy.dest) = some exObj ∧
   intro i hi
   simp only [exProxy, List.mem_singleton] at hi
   subst hi
-  decide
+  exact Iface.agreesIn_of_find (by decide)
+
+/-- The hypotheses of `C11_call_through_introspected_proxy` are satisfiable: C15's sample object (two declared
+interfaces, overwritten and deleted members) is `Declared`, its names and the standard ones are distinct, the empty
+cache is fresh; the introspected proxy exists, lists the two declared interfaces and the three standard ones, and
+selects `Foo` of `org.a.B` with the declaration the exporter holds (two `h` arguments after the overwrite). -/
+example : ∃ cs, Intro.exportedGet? Intro.sampleExported "/a".toList = some cs ∧ Intro.Declared cs ∧
+    ((Intro.decl cs).map (·.name)).Nodup ∧
+    (∃ px, introspectedProxy 1 "/a".toList Intro.sampleExported [] [] false = some px ∧
+      px.ifaces.map (·.name) = ["org.a.B", "org.a.b"] ++ stdNames ∧
+      (proxyLookup none "Foo" px.ifaces).map (fun p => (p.1.name, p.2.sigIn, p.2.nargs)) = some ("org.a.B", "hh", 2) ∧
+      "org.a.B" ∉ stdNames) := by
+  refine ⟨_, rfl, ?_, by decide, ?_⟩
+  · intro c hc
+    simp only [List.mem_cons, List.not_mem_nil, or_false] at hc
+    rcases hc with rfl | rfl
+    · exact ⟨"org.a.B".toList, Intro.sampleOps, rfl⟩
+    · exact ⟨"org.a.b".toList, [], rfl⟩
+  · refine ⟨_, rfl, by decide, by decide, by decide⟩
 
 def exMixed : ExpObj :=
   { path := "/m",
@@ -493,6 +658,10 @@ end Txdbus.Net
 #print axioms Txdbus.Net.issued_from_call_steps
 #print axioms Txdbus.Net.result_from_step
 #print axioms Txdbus.Net.timedOut_from_expire_step
+#print axioms Txdbus.Net.C11_call_selected_interface_agrees
 #print axioms Txdbus.Net.C11_call_through_agreeing_proxy
+#print axioms Txdbus.Net.C11_call_through_introspected_proxy
+#print axioms Txdbus.Net.bytes_run_simulated
+#print axioms Txdbus.Net.C11_bytes_any_delivery_order_partial
 #print axioms Txdbus.Net.C11_returns_what_it_returned
 #print axioms Txdbus.Net.prefix_model_violates
